@@ -2,43 +2,68 @@
 
 package c12
 
-// C12 driver.  Every case = (respond configuration, Accept header, an error tree,
-// a scenario).  The error tree is turned into a real Go error value (real
+// C12 driver.  Every case = (respond configuration + where it comes from, a request, an
+// error tree, a scenario).  The error tree is turned into a real Go error value (real
 // errorchain.ErrorChain, fmt.Errorf %w, errors.Join, *heimdall.RedirectError, a real
-// *cellib.EvalError, foreign types) and
-//   - errors.Is for every target heimdall uses, and errors.As(&redirectError),
+// *cellib.EvalError, foreign and standard-library errors) and
+//   - errors.Is for every target the translators use, and errors.As(&redirectError),
 //   - the real HTTP translator (errorhandler.New(...).HandleError on an httptest recorder),
 //   - the real gRPC translator (errorhandler.New(...) interceptor),
 //   - the complete real decision, proxy and Envoy gRPC service stacks (recovery
-//     middleware, service handler, request contexts, Finalize) around a stub
-//     executor that returns the error / lets a REAL error handler mechanism
-//     (default, redirect, www_authenticate, created by errorhandlers.CreatePrototype)
-//     handle it / panics
-// are observed.
+//     middleware, service handler, request contexts, Finalize) around an executor that
+//     returns the error / runs a REAL rule (ruleImpl with a real compositeErrorHandler of
+//     conditional handlers around REAL default / redirect / www_authenticate mechanisms
+//     after WithConfig) whose authenticator fails with it / panics / succeeds with an
+//     upstream that cannot be reached (proxy only)
+// are observed.  The respond configuration is either put into the config struct or written
+// to a configuration file (documented names) and loaded by the real loader.
 
 import (
+	"bytes"
 	"context"
 	"encoding/xml"
 	"errors"
 	"fmt"
+	"io"
+	"net"
 	"net/http"
 	"net/http/httptest"
+	"net/url"
+	"os"
+	"path/filepath"
+	"sort"
 	"strings"
+	"syscall"
 	"testing"
+	"time"
 
 	"github.com/elnormous/contenttype"
+	envoy_core "github.com/envoyproxy/go-control-plane/envoy/config/core/v3"
 	envoy_auth "github.com/envoyproxy/go-control-plane/envoy/service/auth/v3"
 	"github.com/goccy/go-json"
 	"github.com/google/cel-go/cel"
+	"github.com/iancoleman/strcase"
+	"github.com/rs/zerolog"
+	"google.golang.org/grpc"
+	"google.golang.org/grpc/codes"
+	"google.golang.org/grpc/credentials/insecure"
+	"google.golang.org/grpc/status"
+	"google.golang.org/grpc/test/bufconn"
 
+	"github.com/dadrus/heimdall/internal/cache"
+	"github.com/dadrus/heimdall/internal/cache/memory"
+	"github.com/dadrus/heimdall/internal/config"
+	"github.com/dadrus/heimdall/internal/handler/decision"
+	"github.com/dadrus/heimdall/internal/handler/envoyextauth/grpcv3"
 	gerr "github.com/dadrus/heimdall/internal/handler/middleware/grpc/errorhandler"
 	herr "github.com/dadrus/heimdall/internal/handler/middleware/http/errorhandler"
+	"github.com/dadrus/heimdall/internal/handler/proxy"
 	"github.com/dadrus/heimdall/internal/heimdall"
+	"github.com/dadrus/heimdall/internal/rules"
 	"github.com/dadrus/heimdall/internal/rules/mechanisms/cellib"
 	"github.com/dadrus/heimdall/internal/rules/mechanisms/errorhandlers"
 	"github.com/dadrus/heimdall/internal/rules/rule"
 	"github.com/dadrus/heimdall/internal/x/errorchain"
-	"github.com/dadrus/heimdall/internal/zzverif/stacks"
 	"github.com/dadrus/heimdall/internal/zzverif/vf"
 )
 
@@ -50,7 +75,7 @@ type node struct {
 	N    int    `json:"n,omitempty"`    // foreign flavour+id / other sentinel id / wrap+join flavour
 	Code int    `json:"code,omitempty"`
 	To   string `json:"to,omitempty"`
-	Ctx  bool   `json:"ctx,omitempty"`
+	Ctx  int    `json:"ctx,omitempty"` // error chain context: 0 none, 1 *RedirectError, 2 string, 3 status carrier, 4 struct with StatusCode
 	Sub  []node `json:"sub,omitempty"`
 }
 
@@ -76,6 +101,29 @@ func (f *foreignMap) Error() string { return "foreign map" }
 type foreignSilent struct{}
 
 func (*foreignSilent) Error() string { return "" }
+
+// a foreign error that looks like it knows its own HTTP status, is "temporary", a "timeout",
+// and has Is/As methods of its own family (none of heimdall's kinds)
+type statusCarrier struct{ Code int }
+
+func (s *statusCarrier) Error() string   { return fmt.Sprintf("status carrier %d", s.Code) }
+func (s *statusCarrier) HTTPStatus() int { return s.Code }
+func (s *statusCarrier) StatusCode() int { return s.Code }
+func (s *statusCarrier) Timeout() bool   { return true }
+func (s *statusCarrier) Temporary() bool { return true }
+func (s *statusCarrier) Is(target error) bool {
+	_, ok := target.(*statusCarrier)
+
+	return ok
+}
+
+type foreignCoded struct {
+	Code       int
+	StatusCode int
+	Status     string
+}
+
+func (f *foreignCoded) Error() string { return "foreign coded " + f.Status }
 
 // foreign wrappers
 type customWrap struct{ inner error }
@@ -111,6 +159,37 @@ func realEvalError() error {
 	return evalErr
 }
 
+const foreignFlavours = 12
+
+func foreignLeaf(n int) error {
+	switch n % foreignFlavours {
+	case 0:
+		return fmt.Errorf("foreign %d", n) //nolint:goerr113
+	case 1:
+		return foreignVal{n}
+	case 2:
+		return &foreignMap{M: map[string]int{"a": 1}}
+	case 3:
+		return &foreignSilent{}
+	case 4:
+		return context.Canceled
+	case 5:
+		return context.DeadlineExceeded
+	case 6:
+		return io.EOF
+	case 7:
+		return syscall.ENOENT
+	case 8:
+		return &url.Error{Op: "Get", URL: "http://upstream.local/x", Err: context.DeadlineExceeded}
+	case 9:
+		return &net.OpError{Op: "dial", Net: "tcp", Err: errors.New("connection refused")} //nolint:goerr113
+	case 10:
+		return &statusCarrier{Code: []int{204, 200, 302, 401}[(n/foreignFlavours)%4]}
+	default:
+		return &foreignCoded{Code: 200, StatusCode: 204, Status: "200 OK"}
+	}
+}
+
 func build(n node) error {
 	switch n.K {
 	case "s":
@@ -124,16 +203,7 @@ func build(n node) error {
 	case "e":
 		return realEvalError()
 	case "f":
-		switch n.N % 4 {
-		case 0:
-			return fmt.Errorf("foreign %d", n.N) //nolint:goerr113
-		case 1:
-			return foreignVal{n.N}
-		case 2:
-			return &foreignMap{M: map[string]int{"a": 1}}
-		default:
-			return &foreignSilent{}
-		}
+		return foreignLeaf(n.N)
 	case "w":
 		inner := build(n.Sub[0])
 		if n.N%2 == 0 {
@@ -173,13 +243,16 @@ func build(n node) error {
 			}
 		}
 
-		if n.Ctx {
+		switch n.Ctx {
+		case 1:
 			// adversarial context: a RedirectError must NOT be found through the context
-			if n.N%2 == 0 {
-				ec = ec.WithErrorContext(&heimdall.RedirectError{Message: "ctx", Code: 204, RedirectTo: "http://context"})
-			} else {
-				ec = ec.WithErrorContext("some context")
-			}
+			ec = ec.WithErrorContext(&heimdall.RedirectError{Message: "ctx", Code: 204, RedirectTo: "http://context"})
+		case 2:
+			ec = ec.WithErrorContext("some context")
+		case 3:
+			ec = ec.WithErrorContext(&statusCarrier{Code: 200})
+		case 4:
+			ec = ec.WithErrorContext(struct{ StatusCode int }{StatusCode: 200})
 		}
 
 		return ec
@@ -210,7 +283,7 @@ func coqErr(n node) string {
 	case "j":
 		return vf.CoqApp("JoinW", vf.CoqListOf(n.Sub, coqErr))
 	case "c":
-		return vf.CoqApp("Chain", vf.CoqListOf(n.Sub, coqErr), vf.CoqBool(n.Ctx))
+		return vf.CoqApp("Chain", vf.CoqListOf(n.Sub, coqErr), vf.CoqBool(n.Ctx != 0))
 	}
 
 	panic("bad node")
@@ -250,12 +323,57 @@ func kindsIn(n node, acc map[string]bool) {
 	case "e":
 		acc["eval"] = true
 	case "f":
-		acc["foreign"] = true
+		if f := n.N % foreignFlavours; f >= 4 && f <= 9 {
+			acc["stdlib"] = true
+		} else {
+			acc["foreign"] = true
+		}
 	}
 
 	for _, s := range n.Sub {
 		kindsIn(s, acc)
 	}
+}
+
+// texts of the failure ("error details"): messages of the leaves, of the chains, contexts
+func detailTokens(n node, acc map[string]bool) {
+	add := func(s string) {
+		if len(s) >= 5 && s != heimdall.ErrInternal.Error() {
+			acc[s] = true
+			acc[strcase.ToLowerCamel(s)] = true
+		}
+	}
+
+	switch n.K {
+	case "s", "r", "e", "f":
+		add(build(n).Error())
+	case "c":
+		if len(n.Sub) != 0 && n.N%2 == 0 {
+			add("something failed")
+		}
+
+		switch n.Ctx {
+		case 1:
+			add("http://context")
+		case 2:
+			add("some context")
+		case 3:
+			add("status carrier 200")
+		}
+	}
+
+	for _, s := range n.Sub {
+		detailTokens(s, acc)
+	}
+}
+
+// texts heimdall itself attaches to failures on the paths driven here
+var ownTokens = []string{ //nolint:gochecknoglobals
+	"authentication error", "authorization error", "communication error", "communication timeout error", "argument error",
+	"configuration error", "no rule found", "authenticationError", "authorizationError", "communicationError",
+	"communicationTimeoutError", "argumentError", "configurationError", "noRuleFound",
+	"runtime error occurred", "verif: stub panics", "failed to render", "No upstream reference defined",
+	"Failed to proxy request", "can't evaluate field", "NoSuchField",
 }
 
 var redirectCodes = []int{301, 302, 302, 303, 307, 308, 302, 301} //nolint:gochecknoglobals
@@ -270,21 +388,21 @@ var oddCodes = []int{200, 204, 299, 100, 103, 0, 5, 99, -1, 1000, 1200} //nolint
 
 func genLeaf(r *vf.Rand, odd bool) node {
 	switch x := r.Intn(100); {
-	case x < 55:
+	case x < 52:
 		return node{K: "s", Kind: vf.Pick(r, sentinelNames)}
-	case x < 60:
+	case x < 57:
 		return node{K: "s", Kind: "other", N: r.Intn(3)}
-	case x < 72:
+	case x < 69:
 		code := vf.Pick(r, redirectCodes)
 		if odd && r.Chance(50) {
 			code = vf.Pick(r, oddCodes)
 		}
 
 		return node{K: "r", Code: code, To: vf.Pick(r, []string{"http://a.example/login", "/relative?x=1", "", "https://b.example/\"q\""})}
-	case x < 77:
+	case x < 74:
 		return node{K: "e"}
 	default:
-		return node{K: "f", N: r.Intn(8)}
+		return node{K: "f", N: r.Intn(2 * foreignFlavours)}
 	}
 }
 
@@ -319,34 +437,62 @@ func genTree(r *vf.Rand, d int, odd, allowEmpty bool) node {
 			subs[i] = genTree(r, d-1, odd, allowEmpty)
 		}
 
-		return node{K: "c", N: r.Intn(2), Ctx: r.Chance(25), Sub: subs}
+		ctx := 0
+		if r.Chance(28) {
+			ctx = r.Range(1, 4)
+		}
+
+		return node{K: "c", N: r.Intn(2), Ctx: ctx, Sub: subs}
 	}
 }
 
 // ---- cases ------------------------------------------------------------------------------
 
+// respond mirrors `serve.<service>.respond` of heimdall's configuration.
+type respond struct {
+	Verbose  bool `json:"verbose"`
+	Authn    int  `json:"authn"`
+	Authz    int  `json:"authz"`
+	Comm     int  `json:"comm"`
+	Precond  int  `json:"precond"`
+	NoRule   int  `json:"norule"`
+	Internal int  `json:"internal"`
+}
+
+type reqDesc struct {
+	Method string            `json:"method"`
+	Path   string            `json:"path"`
+	Accept []string          `json:"accept"` // one entry per Accept header line; nil = no Accept header
+	Extra  map[string]string `json:"extra,omitempty"`
+	Remote string            `json:"remote"`
+}
+
 type mech struct {
-	T     string  `json:"t"` // default redirect www
-	Code  int     `json:"code,omitempty"`
-	To    string  `json:"to,omitempty"`
-	Fails bool    `json:"fails,omitempty"`            // the `to` template fails at render time
-	Tmpl  bool    `json:"to_from_header,omitempty"`   // `to` is {{ .Request.Header "X-Login-Url" }}; To = what it renders on this request
-	Login *string `json:"login_url_header,omitempty"` // the X-Login-Url request header (nil = absent)
-	Realm string  `json:"realm,omitempty"`
+	T     string `json:"t"` // default redirect www
+	Code  int    `json:"code,omitempty"`
+	To    string `json:"to,omitempty"`             // rendered target
+	Fails bool   `json:"fails,omitempty"`          // the `to` template fails at render time
+	Tmpl  bool   `json:"to_from_header,omitempty"` // `to` is {{ .Request.Header "X-Login-Url" }}; To = what it renders on this request
+	Realm string `json:"realm,omitempty"`
+	WC    string `json:"with_config,omitempty"` // rule level config: "" none | "empty" {} | "realm" {realm: WCRealm}
+	WCR   string `json:"with_config_realm,omitempty"`
+	If    string `json:"if,omitempty"` // CEL condition of the entry: "" none | "true" | "false"
 }
 
 type scenario struct {
-	T        string `json:"t"` // error handled panic
-	M        *mech  `json:"m,omitempty"`
+	T        string `json:"t"`                   // fail panic proxy
+	Hs       []mech `json:"handlers,omitempty"`  // the rule's error_handler list (fail); none = the executor itself returns the error
 	PanicErr bool   `json:"panic_err,omitempty"` // panic value is the error (else a string)
+	Proxy    string `json:"proxy,omitempty"`     // noupstream reset timeout
 }
 
 type c12Case struct {
-	R      stacks.Respond `json:"respond"`
-	Accept *string        `json:"accept"`
-	E      node           `json:"err"`
-	Sc     scenario       `json:"scenario"`
-	Probe  int            `json:"probe_code"` // redirect handler code tried against the real constructor
+	R     respond  `json:"respond"`
+	File  bool     `json:"from_config_file"` // the respond settings go through a configuration file and the real loader
+	Req   reqDesc  `json:"request"`
+	E     node     `json:"err"`
+	Sc    scenario `json:"scenario"`
+	Probe int      `json:"probe_code"` // redirect handler code tried against the real constructor
 }
 
 var accepts = []string{ //nolint:gochecknoglobals
@@ -354,7 +500,23 @@ var accepts = []string{ //nolint:gochecknoglobals
 	"image/png", "garbage;;", "text/plain;q=0.1, application/xml;q=0.9", "text/plain, application/json",
 	"application/json;q=0.5, text/html;q=0.5", "*/*;q=0.1, text/plain", "TEXT/HTML", "application/xml;q=0",
 	"application/xml, */*;q=0.2", "text/html;level=1", "application/json ; q=0.3 , text/plain;q=0.4",
+	"application/xml;q=0.2, application/json;q=0.2, text/plain;q=0.7, text/html;q=0.1", "image/png, text/plain;q=0.01",
 }
+
+// a second Accept line only ever adds acceptable ranges
+var secondAccepts = []string{"application/json", "text/plain;q=0.5", "*/*;q=0.1", "application/xml;q=0.9"} //nolint:gochecknoglobals
+
+var (
+	methods = []string{http.MethodGet, http.MethodGet, http.MethodGet, http.MethodGet, http.MethodPost, http.MethodPost, //nolint:gochecknoglobals
+		http.MethodHead, http.MethodOptions, http.MethodOptions, http.MethodPut, http.MethodDelete, http.MethodPatch, "PROPFIND"}
+	paths   = []string{"/verif", "/", "/a/b?x=1", "/api/v1/items/17", "/%2Fenc", "/verif/", "/admin", "/healthz"} //nolint:gochecknoglobals
+	remotes = []string{"192.0.2.1:1234", "127.0.0.1:5555", "[::1]:80", "10.1.2.3:40000"}                          //nolint:gochecknoglobals
+	extras  = [][2]string{ //nolint:gochecknoglobals
+		{"X-Forwarded-For", "127.0.0.1"}, {"Origin", "https://app.example"}, {"Authorization", "Bearer abc"},
+		{"X-Requested-With", "XMLHttpRequest"}, {"Content-Type", "application/json"}, {"Access-Control-Request-Method", "POST"},
+		{"X-Debug", "1"}, {"User-Agent", "curl/8"}, {"Accept-Language", "de"}, {"X-Forwarded-Proto", "https"},
+	}
+)
 
 func genCode(r *vf.Rand, odd bool) int {
 	switch x := r.Intn(100); {
@@ -369,282 +531,761 @@ func genCode(r *vf.Rand, odd bool) int {
 	}
 }
 
+func genMech(r *vf.Rand, rq *reqDesc) mech {
+	m := mech{}
+
+	switch y := r.Intn(100); {
+	case y < 25:
+		m.T = "default"
+		if r.Chance(20) {
+			m.WC = "empty"
+		}
+	case y < 62:
+		m.T = "redirect"
+		m.To = vf.Pick(r, []string{"http://idp.example/login", "https://x.example/a?b=c", "/local"})
+		m.Fails = r.Chance(14)
+
+		// request dependent target that renders nothing / blanks / a URL (the header is chosen with the request)
+		if !m.Fails && r.Chance(35) {
+			m.Tmpl = true
+			m.To = rq.Extra["X-Login-Url"]
+		}
+
+		if r.Chance(60) {
+			m.Code = vf.Pick(r, handlerCodes)
+		}
+
+		if r.Chance(15) {
+			m.WC = "empty"
+		}
+	default:
+		m.T = "www"
+		m.Realm = vf.Pick(r, []string{"", "myrealm", "two words", "q\"uote", "x"})
+
+		switch z := r.Intn(100); {
+		case z < 50:
+		case z < 62:
+			m.WC = "empty"
+		default:
+			m.WC, m.WCR = "realm", vf.Pick(r, []string{"", "rule realm", "y", "myrealm", "Please authenticate"})
+		}
+	}
+
+	switch z := r.Intn(100); {
+	case z < 55:
+	case z < 75:
+		m.If = "true"
+	default:
+		m.If = "false"
+	}
+
+	return m
+}
+
+func genReq(r *vf.Rand) reqDesc {
+	rq := reqDesc{Method: vf.Pick(r, methods), Path: vf.Pick(r, paths), Remote: vf.Pick(r, remotes), Extra: map[string]string{}}
+	if r.Chance(45) {
+		rq.Method, rq.Path = http.MethodGet, "/verif"
+	}
+
+	if !r.Chance(15) {
+		rq.Accept = []string{vf.Pick(r, accepts)}
+		if r.Chance(10) {
+			rq.Accept = append(rq.Accept, vf.Pick(r, secondAccepts))
+		}
+	}
+
+	for n := r.Intn(3); n > 0 && r.Chance(70); n-- {
+		e := vf.Pick(r, extras)
+		rq.Extra[e[0]] = e[1]
+	}
+
+	// the header a request dependent redirect target is taken from: absent / empty / blanks / a URL
+	switch x := r.Intn(100); {
+	case x < 30:
+	case x < 45:
+		rq.Extra["X-Login-Url"] = vf.Pick(r, []string{"", " ", " \t"})
+	default:
+		rq.Extra["X-Login-Url"] = "http://idp.example/from-header"
+	}
+
+	return rq
+}
+
 func gen(r *vf.Rand) c12Case {
 	odd := r.Chance(25)
 	c := c12Case{}
-	c.R = stacks.Respond{
+	c.R = respond{
 		Verbose: r.Chance(60),
 		Authn:   genCode(r, odd), Authz: genCode(r, odd), Comm: genCode(r, odd), Precond: genCode(r, odd),
 		NoRule: genCode(r, odd), Internal: genCode(r, odd),
 	}
-
-	if !r.Chance(15) {
-		a := vf.Pick(r, accepts)
-		c.Accept = &a
-	}
-
+	c.File = r.Chance(12)
+	c.Req = genReq(r)
 	c.E = genTree(r, r.Range(1, 6), odd, !c.R.Verbose)
 	c.Probe = vf.Pick(r, probeCodes)
 
 	switch x := r.Intn(100); {
-	case x < 45:
-		c.Sc = scenario{T: "error"}
-	case x < 90:
-		m := &mech{}
-
-		switch y := r.Intn(100); {
-		case y < 30:
-			m.T = "default"
-		case y < 70:
-			m.T = "redirect"
-			m.To = vf.Pick(r, []string{"http://idp.example/login", "https://x.example/a?b=c", "/local"})
-			m.Fails = r.Chance(12)
-
-			// request dependent target that renders nothing / blanks / a URL
-			if !m.Fails && r.Chance(35) {
-				m.Tmpl = true
-
-				switch r.Intn(4) {
-				case 0:
-					m.To = ""
-				case 1:
-					v := vf.Pick(r, []string{"", " ", " \t"})
-					m.Login, m.To = &v, v
-				default:
-					v := "http://idp.example/from-header"
-					m.Login, m.To = &v, v
-				}
-			}
-
-			if r.Chance(60) {
-				m.Code = vf.Pick(r, handlerCodes)
-			}
-		default:
-			m.T = "www"
-			m.Realm = vf.Pick(r, []string{"", "myrealm", "two words", "q\"uote", "x"})
+	case x < 36:
+		c.Sc = scenario{T: "fail"}
+	case x < 84:
+		n := 1
+		if r.Chance(45) {
+			n = r.Range(2, 3)
 		}
 
-		c.Sc = scenario{T: "handled", M: m}
-	default:
+		hs := make([]mech, n)
+		for i := range hs {
+			hs[i] = genMech(r, &c.Req)
+		}
+
+		c.Sc = scenario{T: "fail", Hs: hs}
+	case x < 93:
 		c.Sc = scenario{T: "panic", PanicErr: r.Bool()}
+	default:
+		c.Sc = scenario{T: "proxy", Proxy: vf.Pick(r, []string{"noupstream", "noupstream", "reset", "reset", "reset", "timeout"})}
 	}
 
 	return c
 }
 
+func get() reqDesc {
+	return reqDesc{Method: http.MethodGet, Path: "/verif", Remote: "192.0.2.1:1234", Extra: map[string]string{}}
+}
+
+func getAccept(a ...string) reqDesc {
+	r := get()
+	r.Accept = a
+
+	return r
+}
+
 func corpus() []c12Case {
-	html := "text/html"
-	any := "*/*"
 	authz := node{K: "s", Kind: "authz"}
+	arg := node{K: "c", Sub: []node{{K: "s", Kind: "arg"}}}
+	fail := func(hs ...mech) scenario { return scenario{T: "fail", Hs: hs} }
+	options := get()
+	options.Method = http.MethodOptions
+	loopback := getAccept("*/*")
+	loopback.Remote = "127.0.0.1:5555"
+	loopback.Method = http.MethodPost
+	loopback.Extra["X-Debug"] = "1"
 
 	return []c12Case{
 		// C12-F1 witness: www_authenticate handler, 401 without WWW-Authenticate header
-		{Accept: &html, E: authz, Sc: scenario{T: "handled", M: &mech{T: "www", Realm: "r"}}},
+		{Req: getAccept("text/html"), E: authz, Sc: fail(mech{T: "www", Realm: "r"})},
 		// C12-F2 witness: negative override for authentication errors
-		{R: stacks.Respond{Authn: -5}, E: node{K: "s", Kind: "authn"}, Sc: scenario{T: "error"}},
+		{R: respond{Authn: -5}, Req: get(), E: node{K: "s", Kind: "authn"}, Sc: fail()},
 		// C12-F2: override below 100 (HTTP panics, gRPC sends 50)
-		{R: stacks.Respond{NoRule: 50}, E: node{K: "c", Sub: []node{{K: "s", Kind: "norule"}}}, Sc: scenario{T: "error"}},
+		{R: respond{NoRule: 50}, Req: get(), E: node{K: "c", Sub: []node{{K: "s", Kind: "norule"}}}, Sc: fail()},
 		// C12-F2: redirect code 0 built by hand
-		{E: node{K: "r", Code: 0, To: "http://a"}, Sc: scenario{T: "error"}},
+		{Req: get(), E: node{K: "r", Code: 0, To: "http://a"}, Sc: fail()},
+		// C12-F4 witness: precondition_error.code: 418 in a configuration file is accepted and ignored
+		{R: respond{Precond: 418}, File: true, Req: get(), E: arg, Sc: fail()},
+		// ... the other overrides arrive from a file; so does verbose
+		{R: respond{Verbose: true, Authn: 419, Authz: 420, Comm: 421, NoRule: 422, Internal: 423}, File: true, Req: getAccept("application/json"),
+			E: authz, Sc: fail()},
+		{R: respond{Internal: 423, Precond: 418}, File: true, Req: get(), E: node{K: "f", N: 4}, Sc: fail()},
 		// C12-F3 (note only): Accept */* negotiates html over HTTP and json over gRPC
-		{R: stacks.Respond{Verbose: true}, Accept: &any, E: authz, Sc: scenario{T: "error"}},
+		{R: respond{Verbose: true}, Req: getAccept("*/*"), E: authz, Sc: fail()},
+		// nothing acceptable: HTTP sends no body, gRPC falls back to text/html (pinned by heimdall's unit test)
+		{R: respond{Verbose: true}, Req: getAccept("image/png"), E: authz, Sc: fail()},
+		// two Accept lines: HTTP negotiates on the first one only
+		{R: respond{Verbose: true}, Req: getAccept("text/html;q=0.1", "application/json"), E: authz, Sc: fail()},
 		// override to a success status (outside the hypotheses of never-success)
-		{R: stacks.Respond{Authn: 200}, E: node{K: "s", Kind: "authn"}, Sc: scenario{T: "error"}},
+		{R: respond{Authn: 200}, Req: get(), E: node{K: "s", Kind: "authn"}, Sc: fail()},
 		// a redirect handler with code 200 can no longer be created (fix: 6c5864d); boundaries of the accepted range
-		{E: authz, Sc: scenario{T: "error"}, Probe: 200},
-		{E: authz, Sc: scenario{T: "handled", M: &mech{T: "redirect", Code: 300, To: "http://idp"}}, Probe: 299},
-		{E: authz, Sc: scenario{T: "handled", M: &mech{T: "redirect", Code: 399, To: "http://idp"}}, Probe: 400},
+		{Req: get(), E: authz, Sc: fail(), Probe: 200},
+		{Req: get(), E: authz, Sc: fail(mech{T: "redirect", Code: 300, To: "http://idp"}), Probe: 299},
+		{Req: get(), E: authz, Sc: fail(mech{T: "redirect", Code: 399, To: "http://idp"}), Probe: 400},
 		// precedence: authentication deep inside wins over authorization at the head
-		{R: stacks.Respond{Verbose: true}, E: node{K: "c", Sub: []node{authz, {K: "w", Sub: []node{{K: "j", Sub: []node{
-			{K: "f", N: 1}, {K: "c", Ctx: true, Sub: []node{{K: "s", Kind: "authn"}}}}}}}}}, Sc: scenario{T: "error"}},
+		{R: respond{Verbose: true}, Req: get(), E: node{K: "c", Sub: []node{authz, {K: "w", Sub: []node{{K: "j", Sub: []node{
+			{K: "f", N: 1}, {K: "c", Ctx: 1, Sub: []node{{K: "s", Kind: "authn"}}}}}}}}}, Sc: fail()},
 		// redirect hidden behind a chain context must not be found; first redirect wins
-		{E: node{K: "j", Sub: []node{{K: "c", Ctx: true, Sub: []node{{K: "f", N: 0}}}, {K: "r", Code: 303, To: "/first"},
-			{K: "r", Code: 307, To: "/second"}}}, Sc: scenario{T: "error"}},
+		{Req: get(), E: node{K: "j", Sub: []node{{K: "c", Ctx: 1, Sub: []node{{K: "f", N: 0}}}, {K: "r", Code: 303, To: "/first"},
+			{K: "r", Code: 307, To: "/second"}}}, Sc: fail()},
 		// panic with an error value that carries an authentication error
-		{E: node{K: "w", Sub: []node{{K: "s", Kind: "authn"}}}, Sc: scenario{T: "panic", PanicErr: true}},
+		{Req: get(), E: node{K: "w", Sub: []node{{K: "s", Kind: "authn"}}}, Sc: scenario{T: "panic", PanicErr: true}},
 		// panic with a non-error value, verbose
-		{R: stacks.Respond{Verbose: true, Internal: 503}, Accept: &any, E: authz, Sc: scenario{T: "panic"}},
+		{R: respond{Verbose: true, Internal: 503}, Req: getAccept("*/*"), E: authz, Sc: scenario{T: "panic"}},
 		// redirect target taken from a request header that is absent: an empty Location, still a redirect
-		{E: authz, Sc: scenario{T: "handled", M: &mech{T: "redirect", Tmpl: true}}},
+		{Req: get(), E: authz, Sc: fail(mech{T: "redirect", Tmpl: true})},
 		// redirect template fails at render time
-		{E: authz, Sc: scenario{T: "handled", M: &mech{T: "redirect", To: "x", Fails: true}}},
+		{Req: get(), E: authz, Sc: fail(mech{T: "redirect", To: "x", Fails: true})},
 		// negative internal override: the recovery middleware panics itself
-		{R: stacks.Respond{Internal: -1}, E: node{K: "f", N: 0}, Sc: scenario{T: "error"}},
+		{R: respond{Internal: -1}, Req: get(), E: node{K: "f", N: 0}, Sc: fail()},
+		// a failed OPTIONS request, a POST from loopback with a debug header: the answer depends on the failure only
+		{Req: options, E: authz, Sc: fail()},
+		{Req: loopback, E: node{K: "c", Sub: []node{{K: "s", Kind: "comm"}, {K: "f", N: 5}}}, Sc: fail()},
+		// standard library errors are "anything else": client gone, deadline, EOF, errno, url.Error, status carrier
+		{Req: get(), E: node{K: "f", N: 4}, Sc: fail()},
+		{R: respond{Verbose: true}, Req: get(), E: node{K: "w", Sub: []node{{K: "f", N: 5}}}, Sc: fail()},
+		{Req: get(), E: node{K: "c", Ctx: 3, Sub: []node{{K: "f", N: 8}, {K: "f", N: 10}}}, Sc: fail()},
+		{Req: get(), E: node{K: "j", Sub: []node{{K: "f", N: 22}, {K: "f", N: 11}, {K: "f", N: 7}}}, Sc: fail(mech{T: "default"})},
+		// rule level realm: replaces the prototype's, an empty one is NOT replaced by the default
+		{Req: get(), E: authz, Sc: fail(mech{T: "www", Realm: "proto", WC: "realm", WCR: "rule realm"})},
+		{Req: get(), E: authz, Sc: fail(mech{T: "www", Realm: "proto", WC: "realm", WCR: ""})},
+		{Req: get(), E: authz, Sc: fail(mech{T: "www", WC: "empty"})},
+		// handler lists: the first applicable entry decides, even when it fails itself; none applicable: the cause
+		{Req: get(), E: authz, Sc: fail(mech{T: "www", Realm: "r", If: "false"}, mech{T: "redirect", To: "x", Fails: true}, mech{T: "default"})},
+		{Req: get(), E: authz, Sc: fail(mech{T: "default", If: "false"}, mech{T: "redirect", To: "http://idp", If: "true"})},
+		{Req: get(), E: authz, Sc: fail(mech{T: "default", If: "false"}, mech{T: "www", If: "false"})},
+		// the proxy's own Finalize fails
+		{Req: get(), E: authz, Sc: scenario{T: "proxy", Proxy: "noupstream"}},
+		{R: respond{Verbose: true}, Req: getAccept("text/plain"), E: authz, Sc: scenario{T: "proxy", Proxy: "reset"}},
+		{R: respond{Comm: 504}, Req: get(), E: authz, Sc: scenario{T: "proxy", Proxy: "timeout"}},
 	}
 }
 
 // ---- oracles ----------------------------------------------------------------------------
 
-var httpTypes = []contenttype.MediaType{ //nolint:gochecknoglobals
-	contenttype.NewMediaType("text/html"), contenttype.NewMediaType("application/json"),
-	contenttype.NewMediaType("text/plain"), contenttype.NewMediaType("application/xml"),
-}
-
-var grpcTypes = []contenttype.MediaType{ //nolint:gochecknoglobals
-	{Type: "application", Subtype: "json"}, {Type: "application", Subtype: "xml"},
-	{Type: "text", Subtype: "html"}, {Type: "text", Subtype: "plain"},
-}
+var fourTypes = []string{"text/html", "application/json", "text/plain", "application/xml"} //nolint:gochecknoglobals
 
 type oracle struct {
-	NegHTTP string `json:"neg_http"` // "" = negotiation failed
+	NegHTTP string `json:"neg_http"` // Content-Type the real HTTP translator answers a verbose probe failure with ("" = none)
 	NegGRPC string `json:"neg_grpc"`
 	JSON    bool   `json:"json_ne"`
 	XML     bool   `json:"xml_ne"`
 	Plain   bool   `json:"plain_ne"`
+	// what the Accept header admits
+	Free    bool     `json:"accept_free"`    // no constraint (no / empty / malformed header, or none of the candidate types acceptable)
+	Allowed []string `json:"accept_allowed"` // most preferred acceptable candidate types (all acceptable ones with several Accept lines)
 }
+
+func mediaType(s string) contenttype.MediaType { return contenttype.NewMediaType(s) }
+
+func acceptable(header string, types ...string) (string, error) {
+	l := make([]contenttype.MediaType, len(types))
+	for i, t := range types {
+		l[i] = mediaType(t)
+	}
+
+	mt, _, err := contenttype.GetAcceptableMediaTypeFromHeader(header, l)
+	if err != nil {
+		return "", err
+	}
+
+	return mt.MIME(), nil
+}
+
+// negView: the request's Accept header read per RFC 7231 (all lines joined), ranked by the
+// negotiation library on lists of one and two candidates (so no server side order matters)
+func negView(accept []string, candidates []string) (bool, []string) {
+	if accept == nil {
+		return true, nil
+	}
+
+	header := strings.Join(accept, ",")
+	if strings.TrimSpace(header) == "" {
+		return true, nil
+	}
+
+	acc := []string{}
+
+	for _, t := range candidates {
+		if _, err := acceptable(header, t); err == nil {
+			acc = append(acc, t)
+		} else if !errors.Is(err, contenttype.ErrNoAcceptableTypeFound) {
+			return true, nil // malformed
+		}
+	}
+
+	if len(acc) == 0 {
+		return true, nil
+	}
+
+	if len(accept) > 1 {
+		return false, acc
+	}
+
+	best := []string{}
+
+	for _, t := range acc {
+		ok := true
+
+		for _, u := range acc {
+			if u != t {
+				if w, err := acceptable(header, t, u); err != nil || w != t {
+					ok = false
+				}
+			}
+		}
+
+		if ok {
+			best = append(best, t)
+		}
+	}
+
+	return false, best
+}
+
+var errProbe = errors.New("verif probe") //nolint:gochecknoglobals
 
 func coqMedia(s string) string {
 	switch s {
 	case "text/html":
-		return "(Some Html)"
+		return "Html"
 	case "application/json":
-		return "(Some Json)"
+		return "Json"
 	case "text/plain":
-		return "(Some Plain)"
+		return "Plain"
 	case "application/xml":
-		return "(Some Xml)"
-	case "":
-		return "None"
+		return "Xml"
 	}
 
 	return ""
 }
 
-// observed Content-Type
-func coqOMedia(s string) string {
+func coqOptMedia(s string) string {
 	if m := coqMedia(s); m != "" {
-		return "(OM " + m + ")"
+		return "(Some " + m + ")"
 	}
 
-	return "(OMOther " + vf.CoqStr(s) + ")"
+	return "None"
 }
 
-func oracleFor(accept *string, err error, withBody bool) oracle {
-	o := oracle{}
-	req := httptest.NewRequest(http.MethodGet, "/x", nil)
-	hdrVal := ""
-
-	if accept != nil {
-		req.Header["Accept"] = []string{*accept}
-		hdrVal = *accept
+func coqCType(s string) string {
+	if s == "" {
+		return "CtNone"
 	}
 
-	if mt, _, e := contenttype.GetAcceptableMediaType(req, httpTypes); e == nil {
-		o.NegHTTP = mt.MIME()
+	if m := coqMedia(s); m != "" {
+		return "(CtKnown " + m + ")"
 	}
 
-	if mt, _, e := contenttype.GetAcceptableMediaTypeFromHeader(hdrVal, grpcTypes); e == nil {
-		o.NegGRPC = mt.MIME()
-	}
-
-	if withBody {
-		b, _ := json.Marshal(err)
-		o.JSON = len(b) != 0
-		b, _ = xml.Marshal(err)
-		o.XML = len(b) != 0
-		o.Plain = len(err.Error()) != 0
-	}
-
-	return o
+	return "(CtOther " + vf.CoqStr(s) + ")"
 }
 
 // ---- observation --------------------------------------------------------------------------
 
-type obs struct {
-	Is       []bool        `json:"is"` // authn authz comm timeout arg conf int norule redirect eval
-	AsOK     bool          `json:"as_ok"`
-	AsCode   int           `json:"as_code"`
-	AsTo     string        `json:"as_to"`
-	HTTP     stacks.Result `json:"http"`
-	GRPC     stacks.Result `json:"grpc"`
-	Decision stacks.Result `json:"decision"`
-	Proxy    stacks.Result `json:"proxy"`
-	Envoy    stacks.Result `json:"envoy"`
-	Or       oracle        `json:"oracle"`
-	Up       [][2]string   `json:"upstream_headers"` // handed to ctx.AddHeaderForUpstream by the mechanism
-	ProbeOK  bool          `json:"probe_ok"`         // the real constructor accepted a redirect handler with code Probe
+// res is the canonical observation of one request through one translator / stack.
+type res struct {
+	// http | abort (panic reached the caller) | denied | ok | status (gRPC status error) | notrun
+	Kind     string   `json:"kind"`
+	Status   int      `json:"status"`
+	GCode    string   `json:"gcode,omitempty"`
+	Location *string  `json:"location"`
+	WWW      *string  `json:"www"`
+	CType    string   `json:"ctype,omitempty"`
+	Body     bool     `json:"body"`
+	BodyWF   bool     `json:"body_wf"`
+	Details  bool     `json:"details"`           // a text of the failure shows in the body, a header value or the gRPC status message
+	Where    string   `json:"details_where,omitempty"`
+	Headers  []string `json:"headers,omitempty"` // names of all response headers
+	Panic    string   `json:"panic,omitempty"`
 }
 
-func httpOpts(r stacks.Respond) []herr.Option {
+// wellFormed tells whether a response body is what its Content-Type says: valid JSON, parseable XML
+// with a root element; anything for text/html, text/plain and types the driver does not know.
+func wellFormed(ctype string, body []byte) bool {
+	if len(body) == 0 {
+		return true
+	}
+
+	switch ctype {
+	case "application/json":
+		return json.Valid(body)
+	case "application/xml":
+		dec := xml.NewDecoder(bytes.NewReader(body))
+		elems := 0
+
+		for {
+			tok, err := dec.Token()
+			if errors.Is(err, io.EOF) {
+				return elems > 0
+			}
+
+			if err != nil {
+				return false
+			}
+
+			if _, ok := tok.(xml.StartElement); ok {
+				elems++
+			}
+		}
+	case "":
+		return false // a body without a Content-Type
+	}
+
+	return true
+}
+
+func mime(v string) string {
+	if i := strings.IndexByte(v, ';'); i >= 0 {
+		v = v[:i]
+	}
+
+	return strings.TrimSpace(v)
+}
+
+func findDetails(tokens []string, places map[string]string) (bool, string) {
+	names := make([]string, 0, len(places))
+	for k := range places {
+		names = append(names, k)
+	}
+
+	sort.Strings(names)
+
+	for _, where := range names {
+		for _, t := range tokens {
+			if strings.Contains(places[where], t) {
+				return true, where + ": " + t
+			}
+		}
+	}
+
+	return false, ""
+}
+
+func (rq reqDesc) httpRequest() *http.Request {
+	req := httptest.NewRequest(rq.Method, "http://heimdall.local"+rq.Path, nil)
+	req.RemoteAddr = rq.Remote
+
+	if rq.Accept != nil {
+		req.Header["Accept"] = append([]string{}, rq.Accept...)
+	}
+
+	for k, v := range rq.Extra {
+		req.Header[http.CanonicalHeaderKey(k)] = []string{v}
+	}
+
+	return req
+}
+
+func (rq reqDesc) checkRequest() *envoy_auth.CheckRequest {
+	headers := map[string]string{}
+	if rq.Accept != nil {
+		headers["accept"] = strings.Join(rq.Accept, ",") // Envoy joins repeated header lines
+	}
+
+	for k, v := range rq.Extra {
+		headers[strings.ToLower(k)] = v
+	}
+
+	host, port, _ := net.SplitHostPort(rq.Remote)
+	p := uint32(0)
+	fmt.Sscanf(port, "%d", &p) //nolint:errcheck
+
+	return &envoy_auth.CheckRequest{
+		Attributes: &envoy_auth.AttributeContext{
+			Source: &envoy_auth.AttributeContext_Peer{Address: &envoy_core.Address{Address: &envoy_core.Address_SocketAddress{
+				SocketAddress: &envoy_core.SocketAddress{Address: host, PortSpecifier: &envoy_core.SocketAddress_PortValue{PortValue: p}},
+			}}},
+			Request: &envoy_auth.AttributeContext_Request{
+				Http: &envoy_auth.AttributeContext_HttpRequest{
+					Method: rq.Method, Scheme: "http", Host: "heimdall.local", Path: rq.Path, Headers: headers,
+				},
+			},
+		},
+	}
+}
+
+func recorded(rec *httptest.ResponseRecorder, tokens []string) res {
+	r := res{Kind: "http", Status: rec.Code, Body: rec.Body.Len() != 0}
+	places := map[string]string{"body": rec.Body.String()}
+
+	for k, vs := range rec.Result().Header { // the headers as they were when the status line was written
+
+		r.Headers = append(r.Headers, k)
+		places["header "+k] = strings.Join(vs, "\n")
+
+		if len(vs) == 0 {
+			continue
+		}
+
+		v := vs[0]
+
+		switch k {
+		case "Location":
+			r.Location = &v
+		case "Www-Authenticate":
+			r.WWW = &v
+		case "Content-Type":
+			r.CType = mime(v)
+		}
+	}
+
+	sort.Strings(r.Headers)
+	r.BodyWF = wellFormed(r.CType, rec.Body.Bytes())
+	r.Details, r.Where = findDetails(tokens, places)
+
+	return r
+}
+
+func envoyResult(resp *envoy_auth.CheckResponse, tokens []string) res {
+	gc := codes.Code(resp.GetStatus().GetCode()).String() //nolint:gosec
+	places := map[string]string{"grpc status message": resp.GetStatus().GetMessage()}
+
+	if d := resp.GetDeniedResponse(); d != nil {
+		r := res{Kind: "denied", GCode: gc, Status: int(d.GetStatus().GetCode()), Body: len(d.GetBody()) != 0}
+		places["body"] = d.GetBody()
+
+		for _, h := range d.GetHeaders() {
+			v := h.GetHeader().GetValue()
+			k := http.CanonicalHeaderKey(h.GetHeader().GetKey())
+			r.Headers = append(r.Headers, k)
+			places["header "+k] += v + "\n"
+
+			switch k {
+			case "Location":
+				r.Location = &v
+			case "Www-Authenticate":
+				r.WWW = &v
+			case "Content-Type":
+				r.CType = mime(v)
+			}
+		}
+
+		sort.Strings(r.Headers)
+		r.BodyWF = wellFormed(r.CType, []byte(d.GetBody()))
+		r.Details, r.Where = findDetails(tokens, places)
+
+		return r
+	}
+
+	return res{Kind: "ok", GCode: gc}
+}
+
+func statusErr(err error, tokens []string) res {
+	st := status.Convert(err)
+	r := res{Kind: "status", GCode: st.Code().String()}
+	r.Details, r.Where = findDetails(tokens, map[string]string{"grpc status message": st.Message()})
+
+	return r
+}
+
+func httpOpts(r config.RespondConfig, verbose bool) []herr.Option {
 	return []herr.Option{
-		herr.WithVerboseErrors(r.Verbose), herr.WithPreconditionErrorCode(r.Precond),
-		herr.WithAuthenticationErrorCode(r.Authn), herr.WithAuthorizationErrorCode(r.Authz),
-		herr.WithCommunicationErrorCode(r.Comm), herr.WithNoRuleErrorCode(r.NoRule),
-		herr.WithInternalServerErrorCode(r.Internal),
+		herr.WithVerboseErrors(verbose), herr.WithPreconditionErrorCode(r.With.ArgumentError.Code),
+		herr.WithAuthenticationErrorCode(r.With.AuthenticationError.Code), herr.WithAuthorizationErrorCode(r.With.AuthorizationError.Code),
+		herr.WithCommunicationErrorCode(r.With.CommunicationError.Code), herr.WithNoRuleErrorCode(r.With.NoRuleError.Code),
+		herr.WithInternalServerErrorCode(r.With.InternalError.Code),
 	}
 }
 
-func grpcOpts(r stacks.Respond) []gerr.Option {
+func grpcOpts(r config.RespondConfig, verbose bool) []gerr.Option {
 	return []gerr.Option{
-		gerr.WithVerboseErrors(r.Verbose), gerr.WithPreconditionErrorCode(r.Precond),
-		gerr.WithAuthenticationErrorCode(r.Authn), gerr.WithAuthorizationErrorCode(r.Authz),
-		gerr.WithCommunicationErrorCode(r.Comm), gerr.WithNoRuleErrorCode(r.NoRule),
-		gerr.WithInternalServerErrorCode(r.Internal),
+		gerr.WithVerboseErrors(verbose), gerr.WithPreconditionErrorCode(r.With.ArgumentError.Code),
+		gerr.WithAuthenticationErrorCode(r.With.AuthenticationError.Code), gerr.WithAuthorizationErrorCode(r.With.AuthorizationError.Code),
+		gerr.WithCommunicationErrorCode(r.With.CommunicationError.Code), gerr.WithNoRuleErrorCode(r.With.NoRuleError.Code),
+		gerr.WithInternalServerErrorCode(r.With.InternalError.Code),
 	}
 }
 
-func translateHTTP(c c12Case, err error) (res stacks.Result) {
+func translateHTTP(opts []herr.Option, rq reqDesc, err error, tokens []string) (r res) {
 	defer func() {
 		if p := recover(); p != nil {
-			res = stacks.Result{Kind: "abort", Panic: fmt.Sprint(p)}
+			r = res{Kind: "abort", Panic: fmt.Sprint(p)}
 		}
 	}()
 
 	rec := httptest.NewRecorder()
-	req := httptest.NewRequest(http.MethodGet, "/x", nil)
+	herr.New(opts...).HandleError(rec, rq.httpRequest(), err)
 
-	if c.Accept != nil {
-		req.Header["Accept"] = []string{*c.Accept}
-	}
-
-	herr.New(httpOpts(c.R)...).HandleError(rec, req, err)
-
-	res = stacks.Result{Kind: "http", Status: rec.Code, Body: rec.Body.Len() != 0}
-	if v, ok := rec.Header()["Location"]; ok {
-		res.Location = &v[0]
-	}
-
-	if v, ok := rec.Header()["Www-Authenticate"]; ok {
-		res.WWW = &v[0]
-	}
-
-	ct := rec.Header().Get("Content-Type")
-	if i := strings.IndexByte(ct, ';'); i >= 0 {
-		ct = ct[:i]
-	}
-
-	res.CType = ct
-	res.BodyWF = stacks.WellFormed(ct, rec.Body.Bytes())
-
-	return res
+	return recorded(rec, tokens)
 }
 
-func translateGRPC(c c12Case, err error) (res stacks.Result) {
+func translateGRPC(opts []gerr.Option, rq reqDesc, err error, tokens []string) (r res) {
 	defer func() {
 		if p := recover(); p != nil {
-			res = stacks.Result{Kind: "abort", Panic: fmt.Sprint(p)}
+			r = res{Kind: "abort", Panic: fmt.Sprint(p)}
 		}
 	}()
 
-	headers := map[string]string{}
-	if c.Accept != nil {
-		headers["accept"] = *c.Accept
-	}
-
-	req := &envoy_auth.CheckRequest{Attributes: &envoy_auth.AttributeContext{Request: &envoy_auth.AttributeContext_Request{
-		Http: &envoy_auth.AttributeContext_HttpRequest{Headers: headers},
-	}}}
-
-	out, e := gerr.New(grpcOpts(c.R)...)(context.Background(), req, nil,
+	out, e := gerr.New(opts...)(context.Background(), rq.checkRequest(), nil,
 		func(context.Context, any) (any, error) { return nil, err })
 	if e != nil {
-		return stacks.Result{Kind: "status", GCode: e.Error()}
+		return statusErr(e, tokens)
 	}
 
-	return stacks.EnvoyResult(out.(*envoy_auth.CheckResponse)) //nolint:forcetypeassert
+	return envoyResult(out.(*envoy_auth.CheckResponse), tokens) //nolint:forcetypeassert
 }
 
-func mechanismFor(m *mech) errorhandlers.ErrorHandler {
+// ---- configuration --------------------------------------------------------------------------
+
+func (r respond) struc() config.RespondConfig {
+	rc := config.RespondConfig{Verbose: r.Verbose}
+	rc.With.AuthenticationError.Code = r.Authn
+	rc.With.AuthorizationError.Code = r.Authz
+	rc.With.CommunicationError.Code = r.Comm
+	rc.With.ArgumentError.Code = r.Precond
+	rc.With.NoRuleError.Code = r.NoRule
+	rc.With.InternalError.Code = r.Internal
+
+	return rc
+}
+
+// yaml renders the respond settings under the names the configuration schema and the documentation use
+func (r respond) yaml(indent string) string {
+	var b strings.Builder
+
+	fmt.Fprintf(&b, "%srespond:\n%s  verbose: %v\n", indent, indent, r.Verbose)
+
+	with := ""
+
+	for _, kv := range []struct {
+		name string
+		code int
+	}{
+		{"authentication_error", r.Authn}, {"authorization_error", r.Authz}, {"communication_error", r.Comm},
+		{"precondition_error", r.Precond}, {"no_rule_error", r.NoRule}, {"internal_error", r.Internal},
+	} {
+		if kv.code != 0 {
+			with += fmt.Sprintf("%s    %s:\n%s      code: %d\n", indent, kv.name, indent, kv.code)
+		}
+	}
+
+	if with != "" {
+		fmt.Fprintf(&b, "%s  with:\n%s", indent, with)
+	}
+
+	return b.String()
+}
+
+var (
+	confCache = map[string]config.Configuration{} //nolint:gochecknoglobals
+	confDir   string                              //nolint:gochecknoglobals
+)
+
+func (c c12Case) conf() *config.Configuration {
+	if !c.File {
+		conf := &config.Configuration{}
+		sc := config.ServiceConfig{Host: "127.0.0.1", Port: 1, Respond: c.R.struc()}
+		conf.Serve.Decision, conf.Serve.Proxy = sc, sc
+
+		return conf
+	}
+
+	text := "serve:\n  decision:\n" + c.R.yaml("    ") + "  proxy:\n" + c.R.yaml("    ")
+
+	if cached, ok := confCache[text]; ok {
+		return &cached
+	}
+
+	path := filepath.Join(confDir, fmt.Sprintf("heimdall-%d.yaml", len(confCache)))
+	if err := os.WriteFile(path, []byte(text), 0o600); err != nil {
+		panic(err)
+	}
+
+	conf, err := config.NewConfiguration("BIC12VERIFNOSUCHPREFIX_", config.ConfigurationPath(path))
+	if err != nil {
+		panic(fmt.Sprintf("configuration file rejected: %v\n%s", err, text))
+	}
+
+	confCache[text] = *conf
+	cp := *conf
+
+	return &cp
+}
+
+// ---- stacks -----------------------------------------------------------------------------------
+
+var sharedCache cache.Cache //nolint:gochecknoglobals
+
+func theCache() cache.Cache {
+	if sharedCache == nil {
+		cch, err := memory.NewCache(nil, nil, nil)
+		if err != nil {
+			panic(err)
+		}
+
+		sharedCache = cch
+	}
+
+	return sharedCache
+}
+
+type execFunc func(ctx heimdall.Context) (rule.Backend, error)
+
+func (f execFunc) Execute(ctx heimdall.Context) (rule.Backend, error) { return f(ctx) }
+
+type backend struct{ u *url.URL }
+
+func (b backend) URL() *url.URL { return b.u }
+
+func runHTTP(h http.Handler, rq reqDesc, tokens []string) (r res) {
+	rec := httptest.NewRecorder()
+
+	defer func() {
+		if p := recover(); p != nil {
+			r = res{Kind: "abort", Panic: fmt.Sprint(p)}
+		}
+	}()
+
+	h.ServeHTTP(rec, rq.httpRequest())
+
+	return recorded(rec, tokens)
+}
+
+func runEnvoy(conf *config.Configuration, exec rule.Executor, rq reqDesc, tokens []string) res {
+	lis := bufconn.Listen(1 << 20)
+	srv := grpcv3.VerifNewService(conf, theCache(), zerolog.Nop(), exec)
+
+	go srv.Serve(lis) //nolint:errcheck
+
+	conn, err := grpc.NewClient("passthrough://bufnet",
+		grpc.WithContextDialer(func(context.Context, string) (net.Conn, error) { return lis.Dial() }),
+		grpc.WithTransportCredentials(insecure.NewCredentials()))
+	if err != nil {
+		panic(err)
+	}
+
+	defer func() {
+		conn.Close()
+		srv.Stop()
+	}()
+
+	resp, err := envoy_auth.NewAuthorizationClient(conn).Check(context.Background(), rq.checkRequest())
+	if err != nil {
+		return statusErr(err, tokens)
+	}
+
+	return envoyResult(resp, tokens)
+}
+
+// upstreams that cannot be used: one closes every connection at once, one never answers
+var (
+	resetURL *url.URL //nolint:gochecknoglobals
+	stallURL *url.URL //nolint:gochecknoglobals
+)
+
+func startUpstreams() func() {
+	lis, err := net.Listen("tcp", "127.0.0.1:0")
+	if err != nil {
+		panic(err)
+	}
+
+	go func() {
+		for {
+			c, err := lis.Accept()
+			if err != nil {
+				return
+			}
+
+			c.Close()
+		}
+	}()
+
+	resetURL, _ = url.Parse("http://" + lis.Addr().String() + "/")
+
+	stall := httptest.NewServer(http.HandlerFunc(func(_ http.ResponseWriter, r *http.Request) {
+		select {
+		case <-r.Context().Done():
+		case <-time.After(2 * time.Second):
+		}
+	}))
+	stallURL, _ = url.Parse(stall.URL + "/")
+
+	return func() {
+		lis.Close()
+		stall.CloseClientConnections()
+		stall.Close()
+	}
+}
+
+// ---- scenario execution ---------------------------------------------------------------------------
+
+func mechanismFor(m mech) errorhandlers.ErrorHandler {
 	var (
 		eh  errorhandlers.ErrorHandler
 		err error
@@ -678,7 +1319,21 @@ func mechanismFor(m *mech) errorhandlers.ErrorHandler {
 	}
 
 	if err != nil {
-		panic(fmt.Sprintf("mechanism %+v: %v", *m, err))
+		panic(fmt.Sprintf("mechanism %+v: %v", m, err))
+	}
+
+	// what the rule factory does with the `config` of an error_handler entry
+	switch m.WC {
+	case "empty":
+		eh, err = eh.WithConfig(map[string]any{})
+	case "realm":
+		eh, err = eh.WithConfig(map[string]any{"realm": m.WCR})
+	default:
+		eh, err = eh.WithConfig(nil)
+	}
+
+	if err != nil {
+		panic(fmt.Sprintf("mechanism %+v WithConfig: %v", m, err))
 	}
 
 	return eh
@@ -697,43 +1352,110 @@ func (r recCtx) AddHeaderForUpstream(name, value string) {
 
 func executorFor(c c12Case, err error, rec *[][2]string) rule.Executor {
 	switch c.Sc.T {
-	case "error":
-		return stacks.ExecFunc(func(heimdall.Context) (rule.Backend, error) { return nil, err })
-	case "handled":
-		eh := mechanismFor(c.Sc.M)
+	case "fail":
+		if len(c.Sc.Hs) == 0 {
+			return execFunc(func(heimdall.Context) (rule.Backend, error) { return nil, err })
+		}
 
-		// what ruleImpl.Execute does with a failed stage: return nil, r.eh.Execute(ctx, err)
-		return stacks.ExecFunc(func(ctx heimdall.Context) (rule.Backend, error) {
-			return nil, eh.Execute(recCtx{Context: ctx, rec: rec}, err)
+		hs := make([]rules.VerifHandler, len(c.Sc.Hs))
+		for i, m := range c.Sc.Hs {
+			hs[i] = rules.VerifHandler{Handler: mechanismFor(m), If: m.If}
+		}
+
+		rul, rerr := rules.VerifFailingRule(err, hs)
+		if rerr != nil {
+			panic(rerr)
+		}
+
+		return execFunc(func(ctx heimdall.Context) (rule.Backend, error) {
+			return rul.Execute(recCtx{Context: ctx, rec: rec})
 		})
-	default:
-		return stacks.ExecFunc(func(heimdall.Context) (rule.Backend, error) {
+	case "panic":
+		return execFunc(func(heimdall.Context) (rule.Backend, error) {
 			if c.Sc.PanicErr {
 				panic(err)
 			}
 
 			panic("verif: stub panics")
 		})
+	default:
+		return execFunc(func(heimdall.Context) (rule.Backend, error) {
+			switch c.Sc.Proxy {
+			case "reset":
+				return backend{resetURL}, nil
+			case "timeout":
+				return backend{stallURL}, nil
+			}
+
+			return nil, nil
+		})
 	}
+}
+
+type obs struct {
+	Is       []bool      `json:"is"`  // authn authz comm timeout arg conf int norule redirect eval
+	Is6      []bool      `json:"is6"` // authn authz timeout||comm arg norule redirect (what the switch of the translators asks)
+	AsOK     bool        `json:"as_ok"`
+	AsCode   int         `json:"as_code"`
+	AsTo     string      `json:"as_to"`
+	HTTP     res         `json:"http"`
+	GRPC     res         `json:"grpc"`
+	Decision res         `json:"decision"`
+	Proxy    res         `json:"proxy"`
+	Envoy    res         `json:"envoy"`
+	Or       oracle      `json:"oracle"`
+	Up       [][2]string `json:"upstream_headers"` // handed to ctx.AddHeaderForUpstream by the mechanisms
+	UpWWW    []string    `json:"upstream_www"`     // ... under the name WWW-Authenticate
+	UpDiff   bool        `json:"upstream_differs"` // between the entry points
+	ProbeOK  bool        `json:"probe_ok"`         // the real constructor accepted a redirect handler with code Probe
+	Loaded   respond     `json:"loaded_respond"`   // what arrived in the configuration struct
 }
 
 func run(c c12Case) obs {
 	err := build(c.E)
-	o := obs{Or: oracleFor(c.Accept, err, c.R.Verbose)}
+	conf := c.conf()
+	rc := conf.Serve.Decision.Respond
+	o := obs{}
+	o.Loaded = respond{Verbose: rc.Verbose, Authn: rc.With.AuthenticationError.Code, Authz: rc.With.AuthorizationError.Code,
+		Comm: rc.With.CommunicationError.Code, Precond: rc.With.ArgumentError.Code, NoRule: rc.With.NoRuleError.Code,
+		Internal: rc.With.InternalError.Code}
+
+	tokenSet := map[string]bool{}
+	detailTokens(c.E, tokenSet)
+
+	tokens := append([]string{}, ownTokens...)
+	for t := range tokenSet {
+		tokens = append(tokens, t)
+	}
+
+	sort.Strings(tokens)
 
 	for _, k := range sentinelNames {
 		o.Is = append(o.Is, errors.Is(err, sentinels[k]))
 	}
 
 	o.Is = append(o.Is, errors.Is(err, &heimdall.RedirectError{}), errors.Is(err, &cellib.EvalError{}))
+	o.Is6 = []bool{o.Is[0], o.Is[1], o.Is[3] || o.Is[2], o.Is[4], o.Is[7], o.Is[8]}
 
 	var re *heimdall.RedirectError
 	if errors.As(err, &re) {
 		o.AsOK, o.AsCode, o.AsTo = true, re.Code, re.RedirectTo
 	}
 
-	o.HTTP = translateHTTP(c, err)
-	o.GRPC = translateGRPC(c, err)
+	// oracles: body rendering of the very error value; the translators' own negotiation on a probe failure
+	if rc.Verbose {
+		b, _ := json.Marshal(err)
+		o.Or.JSON = len(b) != 0
+		b, _ = xml.Marshal(err)
+		o.Or.XML = len(b) != 0
+		o.Or.Plain = len(err.Error()) != 0
+	}
+
+	o.Or.NegHTTP = translateHTTP([]herr.Option{herr.WithVerboseErrors(true)}, c.Req, errProbe, nil).CType
+	o.Or.NegGRPC = translateGRPC([]gerr.Option{gerr.WithVerboseErrors(true)}, c.Req, errProbe, nil).CType
+
+	o.HTTP = translateHTTP(httpOpts(rc, rc.Verbose), c.Req, err, tokens)
+	o.GRPC = translateGRPC(grpcOpts(rc, rc.Verbose), c.Req, err, tokens)
 
 	probeConf := map[string]any{"to": "x"}
 	if c.Probe != 0 {
@@ -746,29 +1468,45 @@ func run(c c12Case) obs {
 	var rec [][2]string
 
 	exec := executorFor(c, err, &rec)
-	hdrs := map[string]string{}
-	if c.Accept != nil {
-		hdrs["Accept"] = *c.Accept
+	notrun := res{Kind: "notrun"}
+
+	if c.Sc.T == "proxy" {
+		o.Decision, o.Envoy = notrun, notrun
+		conf.Serve.Proxy.Timeout.Read = 120 * time.Millisecond
+		o.Proxy = runHTTP(proxy.VerifNewService(conf, theCache(), zerolog.Nop(), exec).Handler, c.Req, tokens)
+	} else {
+		o.Decision = runHTTP(decision.VerifNewService(conf, theCache(), zerolog.Nop(), exec).Handler, c.Req, tokens)
+		o.Up = append([][2]string{}, rec...)
+		rec = nil
+		o.Proxy = runHTTP(proxy.VerifNewService(conf, theCache(), zerolog.Nop(), exec).Handler, c.Req, tokens)
+		o.UpDiff = fmt.Sprint(rec) != fmt.Sprint(o.Up)
+		rec = nil
+		o.Envoy = runEnvoy(conf, exec, c.Req, tokens)
+		o.UpDiff = o.UpDiff || fmt.Sprint(rec) != fmt.Sprint(o.Up)
 	}
 
-	if c.Sc.M != nil && c.Sc.M.Login != nil {
-		hdrs["X-Login-Url"] = *c.Sc.M.Login
+	o.UpWWW = []string{}
+
+	for _, h := range o.Up {
+		if http.CanonicalHeaderKey(h[0]) == "Www-Authenticate" {
+			o.UpWWW = append(o.UpWWW, h[1])
+		}
 	}
 
-	o.Decision = stacks.NewDecision(c.R, exec).DoHeaders("/verif", hdrs)
-	o.Up = append([][2]string{}, rec...)
-	rec = nil
-	o.Proxy = stacks.NewProxy(c.R, exec).DoHeaders("/verif", hdrs)
-	same := fmt.Sprint(rec) == fmt.Sprint(o.Up)
-	rec = nil
-
-	env := stacks.NewEnvoy(c.R, exec)
-	o.Envoy = env.DoHeaders("/verif", hdrs)
-	env.Close()
-
-	if !same || fmt.Sprint(rec) != fmt.Sprint(o.Up) {
-		o.Up = append(o.Up, [2]string{"verif: differs between entry points", fmt.Sprint(rec)})
+	if o.UpDiff {
+		o.UpWWW = append(o.UpWWW, "verif: differs between entry points")
 	}
+
+	// what the Accept header admits, for the four types of the translators and any other type seen in an answer
+	candidates := append([]string{}, fourTypes...)
+
+	for _, r := range []res{o.HTTP, o.GRPC, o.Decision, o.Proxy, o.Envoy} {
+		if r.CType != "" && coqMedia(r.CType) == "" {
+			candidates = append(candidates, r.CType)
+		}
+	}
+
+	o.Or.Free, o.Or.Allowed = negView(c.Req.Accept, candidates)
 
 	return o
 }
@@ -783,90 +1521,94 @@ func coqOptStr(s *string) string {
 	return "(Some " + vf.CoqStr(*s) + ")"
 }
 
-func coqHdrs(r stacks.Result) string {
-	return vf.CoqApp("hd", coqOptStr(r.Location), coqOptStr(r.WWW), coqOMedia(r.CType), vf.CoqBool(r.BodyWF))
+func coqReply(r res) string {
+	return vf.CoqApp("mkr", vf.CoqZ(int64(r.Status)), coqOptStr(r.Location), coqOptStr(r.WWW), coqCType(r.CType),
+		vf.CoqBool(r.Body), vf.CoqBool(r.Details), vf.CoqBool(r.BodyWF))
 }
 
-func coqGCode(s string) string {
-	switch s {
-	case "OK":
-		return "(OG GOk)"
-	case "Unauthenticated":
-		return "(OG GUnauthenticated)"
-	case "PermissionDenied":
-		return "(OG GPermissionDenied)"
-	case "DeadlineExceeded":
-		return "(OG GDeadlineExceeded)"
-	case "InvalidArgument":
-		return "(OG GInvalidArgument)"
-	case "NotFound":
-		return "(OG GNotFound)"
-	case "FailedPrecondition":
-		return "(OG GFailedPrecondition)"
-	case "Internal":
-		return "(OG GInternal)"
-	}
-
-	return "(OGOther " + vf.CoqStr(s) + ")"
-}
-
-// HTTP side: OHttp status hdrs body | OAbort | OOther
-func coqHTTP(r stacks.Result) string {
+func coqObs(r res) string {
 	switch r.Kind {
 	case "http":
-		return vf.CoqApp("OHttp", vf.CoqZ(int64(r.Status)), coqHdrs(r), vf.CoqBool(r.Body), vf.CoqBool(r.Marker))
+		return vf.CoqApp("OA", coqReply(r), "false")
+	case "denied":
+		return vf.CoqApp("OA", coqReply(r), vf.CoqBool(r.GCode == "OK"))
 	case "abort":
-		return "OAbort"
+		return "OHard"
+	case "status":
+		if r.GCode == "OK" {
+			return "OPos"
+		}
+
+		if r.Details {
+			return "(OWeird " + vf.CoqStr("details in a gRPC status error: "+r.Where) + ")"
+		}
+
+		return "OHard"
+	case "ok":
+		return "OPos"
+	case "notrun":
+		return "ONotRun"
 	}
 
-	return "(OOther " + vf.CoqStr(r.Kind) + ")"
+	return "(OWeird " + vf.CoqStr(r.Kind) + ")"
 }
 
-// gRPC side: ODenied gcode status hdrs body | OStatus gcode | OOk gcode
-func coqGRPC(r stacks.Result) string {
-	switch r.Kind {
-	case "denied":
-		return vf.CoqApp("ODenied", coqGCode(r.GCode), vf.CoqZ(int64(r.Status)), coqHdrs(r), vf.CoqBool(r.Body))
-	case "status":
-		return vf.CoqApp("OStatus", coqGCode(r.GCode))
-	case "ok":
-		return vf.CoqApp("OOk", coqGCode(r.GCode))
-	case "abort":
-		return "OGAbort"
+func coqMech(m mech) string {
+	var mm string
+
+	switch m.T {
+	case "default":
+		mm = "MDefault"
+	case "redirect":
+		to := "(Some " + vf.CoqStr(m.To) + ")"
+		if m.Fails {
+			to = "None"
+		}
+
+		mm = vf.CoqApp("MRedirect", vf.CoqZ(int64(m.Code)), to)
+	default:
+		mm = vf.CoqApp("MWWW", vf.CoqStr(m.Realm))
 	}
 
-	return "(OGOtherKind " + vf.CoqStr(r.Kind) + ")"
+	wc := "WcNone"
+	if m.WC == "realm" {
+		wc = vf.CoqApp("WcRealm", vf.CoqStr(m.WCR))
+	}
+
+	return vf.CoqApp("xh", vf.CoqBool(m.If != "false"), mm, wc)
 }
 
 func coqCase(c c12Case, o obs) string {
 	cfg := vf.CoqApp("mkcfg", vf.CoqBool(c.R.Verbose), vf.CoqZ(int64(c.R.Authn)), vf.CoqZ(int64(c.R.Authz)),
 		vf.CoqZ(int64(c.R.Comm)), vf.CoqZ(int64(c.R.Precond)), vf.CoqZ(int64(c.R.NoRule)), vf.CoqZ(int64(c.R.Internal)))
-	or := vf.CoqApp("mkor", coqMedia(o.Or.NegHTTP), coqMedia(o.Or.NegGRPC), vf.CoqBool(o.Or.JSON), vf.CoqBool(o.Or.XML),
+	or := vf.CoqApp("mkor", coqOptMedia(o.Or.NegHTTP), coqOptMedia(o.Or.NegGRPC), vf.CoqBool(o.Or.JSON), vf.CoqBool(o.Or.XML),
 		vf.CoqBool(o.Or.Plain))
+
+	known, other := []string{}, []string{}
+
+	for _, t := range o.Or.Allowed {
+		if m := coqMedia(t); m != "" {
+			known = append(known, m)
+		} else {
+			other = append(other, vf.CoqStr(t))
+		}
+	}
+
+	nv := vf.CoqApp("mknv", vf.CoqBool(o.Or.Free), vf.CoqList(known), vf.CoqList(other))
 
 	var sc string
 
 	switch c.Sc.T {
-	case "error":
-		sc = "SError"
-	case "handled":
-		m := c.Sc.M
-
-		switch m.T {
-		case "default":
-			sc = "(SHandled MDefault)"
-		case "redirect":
-			to := "(Some " + vf.CoqStr(m.To) + ")"
-			if m.Fails {
-				to = "None"
-			}
-
-			sc = "(SHandled " + vf.CoqApp("MRedirect", vf.CoqZ(int64(m.Code)), to) + ")"
-		default:
-			sc = "(SHandled " + vf.CoqApp("MWWW", vf.CoqStr(m.Realm)) + ")"
-		}
-	default:
+	case "fail":
+		sc = "(SFail " + vf.CoqListOf(c.Sc.Hs, coqMech) + ")"
+	case "panic":
 		sc = "(SPanic " + vf.CoqBool(c.Sc.PanicErr) + ")"
+	default:
+		if c.Sc.Proxy == "noupstream" {
+			sc = "(SProxy PNoUpstream)"
+		} else {
+			sc = "(SProxy PUpstreamFails)"
+		}
 	}
 
 	as := "None"
@@ -874,21 +1616,50 @@ func coqCase(c c12Case, o obs) string {
 		as = "(Some " + vf.CoqPair(vf.CoqZ(int64(o.AsCode)), vf.CoqStr(o.AsTo)) + ")"
 	}
 
-	return vf.CoqApp("mkcase", cfg, or, coqErr(c.E), sc, vf.CoqListOf(o.Is, vf.CoqBool), as,
-		coqHTTP(o.HTTP), coqGRPC(o.GRPC), coqHTTP(o.Decision), coqHTTP(o.Proxy), coqGRPC(o.Envoy),
-		vf.CoqListOf(o.Up, func(h [2]string) string { return vf.CoqPair(vf.CoqStr(h[0]), vf.CoqStr(h[1])) }),
-		vf.CoqPair(vf.CoqZ(int64(c.Probe)), vf.CoqBool(o.ProbeOK)))
+	return vf.CoqApp("mkcase", cfg, vf.CoqBool(c.File), or, nv, coqErr(c.E), sc, vf.CoqListOf(o.Is6, vf.CoqBool), as,
+		coqObs(o.HTTP), coqObs(o.GRPC), coqObs(o.Decision), coqObs(o.Proxy), coqObs(o.Envoy),
+		vf.CoqStrs(o.UpWWW), vf.CoqPair(vf.CoqZ(int64(c.Probe)), vf.CoqBool(o.ProbeOK)))
 }
 
 func tags(c c12Case, o obs) []string {
-	t := []string{"scenario:" + c.Sc.T, fmt.Sprintf("depth:%d", depth(c.E)), fmt.Sprintf("verbose:%v", c.R.Verbose)}
-	if c.Sc.M != nil {
-		t = append(t, "mechanism:"+c.Sc.M.T)
+	t := []string{"scenario:" + c.Sc.T, fmt.Sprintf("depth:%d", depth(c.E)), fmt.Sprintf("verbose:%v", c.R.Verbose),
+		"method:" + c.Req.Method, fmt.Sprintf("accept-lines:%d", len(c.Req.Accept)), fmt.Sprintf("from-config-file:%v", c.File),
+		fmt.Sprintf("accept-free:%v", o.Or.Free)}
+
+	if c.Sc.T == "fail" {
+		t = append(t, fmt.Sprintf("handlers:%d", len(c.Sc.Hs)))
+
+		applied := "none"
+
+		for _, m := range c.Sc.Hs {
+			if m.If != "false" {
+				applied = m.T
+				if m.T == "redirect" && m.Fails {
+					applied = "redirect-fails"
+				}
+
+				if m.WC != "" {
+					applied += "+with_config:" + m.WC
+				}
+
+				break
+			}
+		}
+
+		t = append(t, "handler-applied:"+applied)
+	}
+
+	if c.Sc.T == "proxy" {
+		t = append(t, "proxy:"+c.Sc.Proxy)
 	}
 
 	kinds := map[string]bool{}
 	kindsIn(c.E, kinds)
 	t = append(t, fmt.Sprintf("kinds-in-tree:%d", len(kinds)))
+
+	if kinds["stdlib"] {
+		t = append(t, "tree-has:stdlib-error")
+	}
 
 	if o.HTTP.Kind == "http" {
 		t = append(t, fmt.Sprintf("http-status:%d", o.HTTP.Status))
@@ -912,7 +1683,15 @@ func tags(c c12Case, o obs) []string {
 		t = append(t, "note:body-presence-differs-http-vs-grpc")
 	}
 
-	if o.Decision.Kind == "abort" {
+	for _, r := range []res{o.HTTP, o.GRPC, o.Decision, o.Proxy, o.Envoy} {
+		if r.Details {
+			t = append(t, "details-observed")
+
+			break
+		}
+	}
+
+	if o.Decision.Kind == "abort" || o.Proxy.Kind == "abort" {
 		t = append(t, "stack:abort")
 	}
 
@@ -935,17 +1714,22 @@ func tags(c c12Case, o obs) []string {
 
 // non-trivial: the tree mixes at least two different leaf kinds below at least one
 // wrapper (so that precedence and the chain semantics matter), or the failure goes
-// through an error handler mechanism, or something panics
+// through an error handler list, or something panics, or the proxy's Finalize fails
 func nontrivial(c c12Case) bool {
 	kinds := map[string]bool{}
 	kindsIn(c.E, kinds)
 
-	return (len(kinds) >= 2 && depth(c.E) >= 2) || c.Sc.T != "error"
+	return (len(kinds) >= 2 && depth(c.E) >= 2) || c.Sc.T != "fail" || len(c.Sc.Hs) != 0
 }
 
 func TestVerifC12(t *testing.T) {
 	w := vf.NewWriter()
 	defer w.Close()
+
+	confDir = t.TempDir()
+
+	stop := startUpstreams()
+	defer stop()
 
 	root := vf.NewRand(vf.Seed())
 	n := vf.N(600)
@@ -966,6 +1750,8 @@ func TestVerifC12(t *testing.T) {
 
 	for i := 0; i < n; i++ {
 		c := gen(root.Fork(uint64(i)))
+		// ErrorChain.MarshalJSON/MarshalXML dereference the head of an EMPTY chain: such values are only
+		// generated without verbose responses (an empty chain cannot be built through the package's API)
 		if c.R.Verbose && hasEmptyChain(c.E) {
 			c.R.Verbose = false
 		}
